@@ -81,9 +81,9 @@ MAPPINGS: dict[str, dict[str, dict[str, Any]]] = {
         "application_name": dict(key_paths=[[P + "attrs.[].key", P + "app"]], key_value=[["svc", None]], value_paths=[["vtop", None]], value_type="string"),
     },
     "array level sharing its name with the final key": {
-        "outer": dict(key_paths=["items.[].id"], value_type="string"),
-        "inner": dict(key_paths=["items.[].sub.[].items"], value_type="string"),
-        "again": dict(key_paths=["items.[].sub.[].sub"], value_type="string"),
+        "job_name": dict(key_paths=["items.[].id"], value_type="string"),
+        "job_id": dict(key_paths=["items.[].sub.[].items"], value_type="string"),
+        "event_type": dict(key_paths=["items.[].sub.[].sub"], value_type="string"),
     },
 }
 
@@ -225,18 +225,35 @@ def substitute(doc: Any, f: Any) -> Any:
 
 
 # --------------------------------------------------------------------------
+OTEL_FIELDS = ["job_name", "job_id", "event_type", "event_id", "start_timestamp", "end_timestamp", "application_name", "parent_event_id"]
+
+
+def full(mapping: dict[str, dict[str, Any]]) -> dict[str, dict[str, Any]]:
+    """The mapping as a complete OTel field mapping: fields the case does not exercise get a plain path to a key that no
+    skeleton contains (they extract null in the program and in the reference alike)."""
+    first = next(iter(mapping.values()))["key_paths"][0]
+    first = first[0] if isinstance(first, list) else first
+    root = "items.[]." if first.startswith("items") else P
+    out = {f: (copy.deepcopy(mapping[f]) if f in mapping else dict(key_paths=[root + "zz_" + f], value_type="string")) for f in OTEL_FIELDS}
+    return out
+
+
+def config_for(mapping: dict[str, dict[str, Any]]) -> Any:
+    """through the REAL configuration path (what a yaml file goes through): pydantic models, then the converter"""
+    from tel2puml.otel_to_pv.data_sources.json_data_source.json_config import JSONDataSourceConfig
+    return JSONDataSourceConfig(filepath="/nonexistent.json", field_mapping=full(mapping))  # type: ignore[arg-type]
+
+
 def program_for(mapping: dict[str, dict[str, Any]]) -> str:
-    from tel2puml.otel_to_pv.data_sources.json_data_source.json_config import FieldSpec
-    from tel2puml.otel_to_pv.data_sources.json_data_source.json_jq_converter import field_mapping_to_jq_query
-    return field_mapping_to_jq_query({k: FieldSpec(**v) for k, v in mapping.items()})
+    from tel2puml.otel_to_pv.data_sources.json_data_source.json_jq_converter import get_jq_query_from_config
+    return get_jq_query_from_config(config_for(mapping))
 
 
 def real_jq(mapping: dict[str, dict[str, Any]], doc: Any) -> Any:
-    from tel2puml.otel_to_pv.data_sources.json_data_source.json_config import FieldSpec
-    from tel2puml.otel_to_pv.data_sources.json_data_source.json_jq_converter import (field_mapping_to_compiled_jq,
+    from tel2puml.otel_to_pv.data_sources.json_data_source.json_jq_converter import (compile_jq_query, get_jq_query_from_config,
                                                                                     generate_records_from_compiled_jq)
-    cj = field_mapping_to_compiled_jq({k: FieldSpec(**v) for k, v in mapping.items()})
     try:
+        cj = compile_jq_query(get_jq_query_from_config(config_for(mapping)))
         return list(generate_records_from_compiled_jq(doc, cj))
     except Exception as e:  # noqa
         return f"raised {type(e).__name__}: {str(e)[:200]}"
@@ -275,8 +292,16 @@ def one_job(job: tuple[str, str, Any, dict[str, dict[str, Any]]]) -> dict[str, A
     try:
         prog = program_for(mapping)
         ast_ = J.parse(prog)
+    except J.JQError as e:
+        res.update(verdict="unknown", why=f"generated program is outside the modelled jq subset: {e}")
+        return res
+    except SyntaxError as e:
+        res.update(verdict="unknown", why=f"generated program not parsed by the jq-subset parser: {e}")
+        return res
     except Exception as e:  # noqa
-        res.update(verdict="unknown", why=f"program not generated/parsed: {type(e).__name__}: {e}")
+        # the real configuration path / converter refuses a mapping written in a documented form
+        res.update(verdict="sat", model={}, generation_failed=f"{type(e).__name__}: {str(e)[:300]}",
+                   what=[f"no extraction program for a documented-form mapping: {type(e).__name__}"])
         return res
     # validation of the jq-subset semantics on this very case: concrete strings through jqsym and through real jq
     cdoc = substitute(template, lambda tk: tk[1:])
@@ -296,7 +321,7 @@ def one_job(job: tuple[str, str, Any, dict[str, dict[str, Any]]]) -> dict[str, A
             got = J.run_program(ast_, doc)
         except J.JQError as e:
             got = [f"program error: {e}"]
-        want = J.reference(mapping, doc)
+        want = J.reference(full(mapping), doc)
         return compare(got, want)
     for pc, diffs, exc in X.explore(go, [], max_paths=4000):
         res["paths"] += 1
@@ -328,8 +353,12 @@ def replay_b(mname: str, template: Any, vals: dict[str, str]) -> tuple[bool, str
     from vlib import jqsym as J
     mapping = MAPPINGS[mname]
     doc = substitute(template, lambda tk: vals.get(tk, tk[1:]))
+    try:
+        program_for(mapping)
+    except Exception as e:  # noqa
+        return True, f"mapping '{mname}' (a documented form) is rejected by the real configuration path / converter: {type(e).__name__}: {str(e)[:200]}"
     got = real_jq(mapping, doc)
-    want = J.reference(mapping, doc)
+    want = J.reference(full(mapping), doc)
     return got != want, f"mapping '{mname}' on {json.dumps(doc)}: real jq extracts {got}, documented flattening gives {want}"
 
 
